@@ -155,8 +155,10 @@ def make_queries(rng, X, m):
             q = X[i] + rng.normal(size=d) * 1e-3
         elif r < 0.6:
             q = (X[i] + X[j]) / 2.0
-        elif r < 0.7:
+        elif r < 0.66:
             q = X[i] + rng.normal(size=d) * 50
+        elif r < 0.7:
+            q = np.full(d, 1e200)               # every distance overflows to +inf: all training samples tie
         elif r < 0.8 and Q:
             q = Q[int(rng.integers(0, len(Q)))].copy()
         else:
@@ -180,6 +182,18 @@ def make_matrix(rng, N, kind):
         A = rng.integers(0, 3, size=(N, N)).astype(float)
         D = np.triu(A, 1)
         D = D + D.T
+    elif kind == "MN":
+        # near-ties: a few base values, every entry scaled by (1 + j*2.5e-13) with a distinct j -> pairwise distinct weights that are
+        # equal up to ~1e-12 relative (an "almost equal" comparison would merge them; an exact one must not)
+        base = rng.integers(1, 4, size=(N, N)).astype(float)
+        js = rng.permutation(N * N).reshape(N, N)        # all distinct: the matrix is tie-free, yet neighbours in rank differ by ~1e-13
+        A = np.triu(base * (1.0 + js * 1.1e-13), 1)
+        D = A + A.T
+    elif kind == "MS":
+        # signed symmetric weights with exact zeros (C02 quantifies over all symmetric weight assignments)
+        A = np.round(rng.normal(size=(N, N)) * 2.0, 0)
+        A = np.triu(A, 1)
+        D = A + A.T
     elif kind == "MB":
         # blocks: within-block distances ~1e-13, between-block ~1e10 (ratio 1e-23: far below any absolute epsilon once inverted)
         g = rng.integers(0, max(2, N // 4), size=N)
@@ -253,3 +267,11 @@ def exhaustive_small_graphs(tier, shard, nshards):
                 for (i, j), w in zip(pairs, ws):
                     D[i, j] = D[j, i] = w
                 yield n, D, list(y)
+
+
+def int_vec(rng, kind, n, zeros_ok):
+    """Integer-valued vector of the domain (to be passed as an int32/int64 array): R up to +-1e5, N/P up to 1000."""
+    if kind == "R":
+        return rng.integers(-100000, 100001, size=n) if rng.random() < 0.5 else rng.integers(-5, 6, size=n)
+    lo = 0 if (kind == "N" or zeros_ok) else 1
+    return rng.integers(lo, 1000 if rng.random() < 0.5 else 6, size=n)
